@@ -495,6 +495,21 @@ func (x *Exec) scanCall(st *State, fr *Frame, call *ssa.CallCommon, ws *writeSet
 		x.scanStaticCallee(st, fr, fv.Fn, fv.Binds, call.Args, ws, depth)
 		return
 	}
+	// value of a named function type / package-level function variable under contract
+	if n, ok := call.Value.Type().(*types.Named); ok {
+		if c := x.contractOf(qualName(n)); c != nil {
+			x.scanContractAssigns(c, qualName(n), nil, ws)
+			return
+		}
+	}
+	if u, ok := call.Value.(*ssa.UnOp); ok {
+		if g, ok := u.X.(*ssa.Global); ok && g.Pkg != nil {
+			if c := x.contractOf(g.Pkg.Pkg.Path() + "." + g.Name()); c != nil {
+				x.scanContractAssigns(c, g.Pkg.Pkg.Path()+"."+g.Name(), nil, ws)
+				return
+			}
+		}
+	}
 	x.scanHavocArgs(call.Args, ws)
 }
 
